@@ -52,7 +52,7 @@ class AbstractODSGenerator(AbstractReportGenerator):
         if not isinstance(template_sheets_to_keep, Set):
             raise RP2TypeError(f"Parameter 'template_sheets_to_keep' is not a Set: {template_sheets_to_keep}")
 
-        accounting_method: str = years_2_accounting_method_names[MIN_DATE.year] if len(years_2_accounting_method_names) == 1 else "mixed"
+        accounting_method: str = next(iter(years_2_accounting_method_names.values())) if len(years_2_accounting_method_names) == 1 else "mixed"
         output_file_path: Path = Path(output_dir_path) / Path(f"{output_file_prefix}{accounting_method}_{output_file_name}")
         if Path(output_file_path).exists():
             output_file_path.unlink()
@@ -85,7 +85,7 @@ class AbstractODSGenerator(AbstractReportGenerator):
             if legend_sheet[index, 0].value == _("Accounting Method"):
                 accounting_method_by_year: List[str] = []
                 if len(years_2_accounting_method_names) == 1:
-                    accounting_method_by_year.append(years_2_accounting_method_names[MIN_DATE.year].upper())
+                    accounting_method_by_year.append(next(iter(years_2_accounting_method_names.values())).upper())
                 else:
                     old_year = MIN_DATE.year
                     for year, method in years_2_accounting_method_names.items():
